@@ -20,6 +20,11 @@ def plan(tier, seed):
                                                                     "api.ParquetFile.info"]))
     jobs.append(ch("C17", "vf/pyshim/h_c06.py", "h_slice_state", t, ["api.ParquetFile.__getitem__",
                                                                     "api.ParquetFile.__setstate__"]))
+    for nm in (0, 1, 2, 3):
+        j = ch("C17", "vf/pyshim/h_meta.py", "h_make_metadata", t, ["writer.make_metadata"],
+               shape=dict(has_nulls=["True", "False", "None", "list"][nm]), env=dict(VERIF_NULLMODE=nm))
+        j["name"] += "[has_nulls=%d]" % nm
+        jobs.append(j)
     jobs.append(dict(name="C17-lemma-find-type", kind="pyfunc", timeout=400,
                      payload=dict(func="vf.pyshim.lemma_types:find_type_roundtrip")))
     extra = dict(
